@@ -208,10 +208,17 @@ class Builder:
             return 0
         return lst.index(sp) + 1
 
-    def array_len(self, info):
+    def array_len(self, info, fname=None):
         it_e = (info or {}).get("e") if isinstance(info, dict) else None
+        it_e = H.peel_ref(it_e) if isinstance(it_e, dict) else it_e
         while isinstance(it_e, dict) and it_e.get("k") == "mcall" and it_e["name"] in ("iter", "into_iter", "enumerate") and not it_e["args"]:
             it_e = H.peel_ref(it_e["recv"])
+        if fname and isinstance(it_e, dict) and it_e.get("k") == "local" and it_e.get("name") not in self.assigned:
+            # `let bounds = [lo, hi];` - an immutable local holding an array literal
+            inits = [n for n in walk((self.f.fns.get(fname) or {}).get("hir") or {})
+                     if n.get("k") == "stmt_let" and n["pat"].get("k") == "bind" and n["pat"].get("name") == it_e["name"]]
+            if len(inits) == 1 and not inits[0]["pat"].get("mut") and isinstance(inits[0].get("init"), dict) and H.peel_ref(inits[0]["init"]).get("k") == "array":
+                it_e = H.peel_ref(inits[0]["init"])
         if isinstance(it_e, dict) and it_e.get("k") == "array":
             return len(it_e.get("es") or [])
         return 0
@@ -914,6 +921,31 @@ class Builder:
                          if n.get("k") == "stmt_let" and n["pat"].get("k") == "bind" and n["pat"].get("name") == it_e["name"]]
                 if len(inits) == 1 and isinstance(inits[0].get("init"), dict) and H.peel_ref(inits[0]["init"]).get("k") == "array":
                     it_e = H.peel_ref(inits[0]["init"])
+            if isinstance(it_e, dict) and it_e.get("k") == "local" and it_e.get("name") not in self.assigned:
+                # `let xs = [a, b]; if let Some((first, rest)) = xs.split_first() { ..; for x in rest {..} }`: the tail of an array literal
+                fn_hir = (self.f.fns.get(fname) or {}).get("hir") or {}
+                for n in walk(fn_hir):
+                    if n.get("k") not in ("let", "stmt_let") or not isinstance(n.get("init"), dict) or not isinstance(n.get("pat"), dict):
+                        continue
+                    pt_, iv_ = n["pat"], H.peel_ref(n["init"])
+                    if not ((pt_.get("path") or {}).get("def") == "core::option::Option::Some" and len(pt_.get("subs") or []) == 1 and
+                            pt_["subs"][0].get("k") == "tuple" and len(pt_["subs"][0].get("subs") or []) == 2 and
+                            iv_.get("k") == "mcall" and iv_.get("name") in ("split_first", "split_last") and not iv_.get("args")):
+                        continue
+                    tl = pt_["subs"][0]["subs"][1]
+                    if tl.get("k") != "bind" or tl.get("name") != it_e["name"]:
+                        continue
+                    src_ = H.peel_ref(iv_["recv"])
+                    if src_.get("k") == "local" and src_.get("name") not in self.assigned:
+                        inits = [m for m in walk(fn_hir) if m.get("k") == "stmt_let" and m["pat"].get("k") == "bind" and m["pat"].get("name") == src_["name"]]
+                        src_ = H.peel_ref(inits[0]["init"]) if len(inits) == 1 and isinstance(inits[0].get("init"), dict) else src_
+                    if src_.get("k") == "array" and src_.get("es"):
+                        es_ = src_["es"][1:] if iv_["name"] == "split_first" else src_["es"][:-1]
+                        if not es_:
+                            a.add_eps(s, e)
+                            return
+                        it_e = {"k": "array", "es": es_}
+                    break
             if isinstance(it_e, dict) and it_e.get("k") == "array":
                 fixed_n = len(it_e.get("es") or [])
             if fixed_n:
@@ -1067,9 +1099,9 @@ class Builder:
                     a.add_eps(Hs, nH)
                 Hs = nH
             a.add_eps(Hs, e)        # at least one element overall (an empty element list is a builder state R3 decides)
-        elif k == "sepby" and self.array_len(S[3] if len(S) > 3 else None):
+        elif k == "sepby" and self.array_len(S[3] if len(S) > 3 else None, fname):
             # a separated list over an array literal has exactly that many elements
-            n_ = self.array_len(S[3])
+            n_ = self.array_len(S[3], fname)
             cur = s
             for i_ in range(n_):
                 if i_ > 0:
